@@ -71,9 +71,9 @@ def prepare(parsed, i, j, with_extract=False):
     """real lists + the driver lines of one region"""
     nodes = parsed.region_nodes(i, j)
     real_in, real_out = R.real_inout(nodes)
-    if R.non_minif(nodes):
-        # MiniF cannot execute the region (CodeBlock, or call of unknown intent): access model
-        # with CodeBlock items / READWRITE arguments, ExtractTrans accept/refuse always, property
+    if R.non_minif(nodes, parsed.names):
+        # the model cannot execute the region (CodeBlock, or a call other than `bump`): access model
+        # (CodeBlock names / call arguments READWRITE), ExtractTrans accept/refuse always, property
         # via the gfortran replay oracle (in conclude)
         ctx = {"parsed": parsed, "i": i, "j": j, "real": [real_in, real_out], "cb": True,
                "has_cb": R.has_codeblock(nodes), "partial": R.partial_first_writes(nodes),
@@ -126,6 +126,9 @@ def conclude(ctx, out):
     parsed, i, j = ctx["parsed"], ctx["i"], ctx["j"]
     real_in, real_out = ctx["real"]
     m = common.parse_sx(out[0])
+    if m[4] != 1:
+        raise common.Infra("exported region violates RegionData.covered (harness bug): "
+                           + common.sx(parsed.export(parsed.region_nodes(i, j))))
     id2n = {v: k for k, v in parsed.names.table().items()}
     model_in, model_out = sorted(id2n[x] for x in m[0]), sorted(id2n[x] for x in m[1])
     fails = []
@@ -204,19 +207,19 @@ def classify(res):
     if not res["fails"]:
         return None
     kinds = {k for k, _ in res["fails"]}
-    if res.get("cb") and not res.get("has_cb"):
-        # region with a call of unknown intent, evaluated by gfortran (no stored-value check):
-        # only the partial-first-write classes can explain a failure
+    if res.get("cb"):
+        # region with a CodeBlock (its names are READWRITE at HEAD) or a call the model does not
+        # inline, evaluated by gfortran (no stored-value check): only the partial-first-write
+        # classes can explain a failure, and only on a variable whose first access is such a write
         if "dynamic-write-not-output" in kinds or res["model"] != res["real"] or not res["partial"] \
                 or res["model_extract"] != ("refuse" if res["extract"] is None else "accept"):
             return None
-        return "C12-partial-output-not-input"
-    if res.get("cb"):
-        # a CodeBlock's accesses are invisible to get_in_out_parameters; ExtractTrans must
-        # therefore refuse such regions — an ACCEPTED one that fails is never a known finding
-        if res["extract"] is not None or res["model"] != res["real"] or res["model_extract"] != "refuse":
+        if res["has_cb"] and res["extract"] is not None:
+            return None                          # ExtractTrans must refuse CodeBlock regions
+        blamed = {d.get("variable") for _, d in res["fails"]}
+        if not all(v is None or v in res["partial"] for v in blamed):
             return None
-        return "C12-codeblock-accesses-ignored"
+        return "C12-partial-output-not-input"
     if "dynamic-write-not-output" in kinds:
         return None                              # C12_outputs is unconditional
     if res["model"] != res["real"] or not res["partial"]:
